@@ -29,6 +29,7 @@ VAR_KINDS = {
     "none": ["None", "0", "None"],
     "list": ["[1, 2]", "[1, 3]", "[]"],
     "tuple": ["(1, 2)", "(1, 3)", "()"],
+    "tuplef": ["(1, 2)", "(1.0, 2.0)", "(True, 2)"],
     "dict": ["{'k': 1, 'j': 2}", "{'j': 2, 'k': 1}", "{'k': 2}"],
     "relpath": ["pathlib.Path('data/raw.csv')", "pathlib.Path('data/other.csv')", "pathlib.Path('x')"],
     "path": ["PurePosixPath('/x/y')", "PurePosixPath('/x/z')", "PurePosixPath('a')"],
@@ -52,8 +53,8 @@ def add_module(p, name):
     return name
 
 
-def add_var(p, module, name, kind, value=None):
-    vid = "v_" + name
+def add_var(p, module, name, kind, value=None, vid=None):
+    vid = vid or "v_" + name
     p["vars"][vid] = {"module": module, "name": name, "kind": kind, "value": value if value is not None else VAR_KINDS[kind][0]}
     p["order"][module].append(("var", vid))
     return vid
@@ -457,8 +458,9 @@ def _render_fn_lines(p, fid, ctx, prelude):
     elif f.get("ret") == "empty_bytes":
         lines.append("    return b\"\"")
     elif f.get("ret") == "crlf_str":
-        # text with Windows and old-Mac line ends (a text-mode file would translate them)
-        lines.append("    return \"rows\\r\\n\" + \"|\".join(repr(y) for y in r) + \"\\r\\nprogress 50%\\rprogress 100%\\n\"")
+        # text that starts with a byte-order mark and has Windows and old-Mac line ends (what a spreadsheet export
+        # looks like; a text-mode file or a BOM-stripping decoder would change it)
+        lines.append("    return \"\\ufeffrows\\r\\n\" + \"|\".join(repr(y) for y in r) + \"\\r\\nprogress 50%\\rprogress 100%\\n\"")
     elif f.get("ret") == "str":
         lines.append("    return \"|\".join(repr(y) for y in r)")
     else:
@@ -607,24 +609,24 @@ def _own_items(p, fid, memo, stack=(), externals=None):
         items.append(("T", f["name"], fn_text_nomod(p, g)))
         for vid, access in f["reads"]:
             v = p["vars"][vid]
-            items.append(("V", v["name"], v["value"]))
+            items.append(("V", v["module"], v["name"], v["value"]))
         for s in f["stmts"]:
             if s["k"] == "nested_def" and s.get("var"):
                 v = p["vars"][s["var"]]
-                items.append(("V", v["name"], v["value"]))
+                items.append(("V", v["module"], v["name"], v["value"]))
             if s["k"] in ("method", "clsattr"):
                 c = p["classes"][s["cls"]]
                 items.append(("C", c["name"], render_cls_nomod(p, s["cls"])))
                 if c.get("var"):
                     v = p["vars"][c["var"]]
-                    items.append(("V", v["name"], v["value"]))
+                    items.append(("V", v["module"], v["name"], v["value"]))
             if s.get("cond"):
                 v = p["vars"][s["cond"]]
-                items.append(("V", v["name"], v["value"]))
+                items.append(("V", v["module"], v["name"], v["value"]))
             for a in s.get("args", []):
                 if a["k"] == "var":
                     v = p["vars"][a["var"]]
-                    items.append(("V", v["name"], v["value"]))
+                    items.append(("V", v["module"], v["name"], v["value"]))
             if s["k"] == "lazy_call":
                 items.append(("Z", p["lazy"]["name"], p["lazy"]["const"], p["lazy"]["var"]))
             if s["k"] == "load":
